@@ -1,5 +1,6 @@
 use crate::core::Monitor;
 
+pub mod c02;
 pub mod c03;
 pub mod c06;
 pub mod c07;
@@ -9,6 +10,7 @@ pub mod c18;
 
 pub fn get(id: &str) -> Option<Box<dyn Monitor>> {
     match id {
+        "C02" => Some(Box::new(c02::C02)),
         "C03" => Some(Box::new(c03::C03)),
         "C06" => Some(Box::new(c06::C06)),
         "C07" => Some(Box::new(c07::C07)),
